@@ -487,6 +487,13 @@ func (w *World) enabled() []core.WCmd {
 				break
 			}
 		}
+		// ... and past the 15 s limit of a whole round while tile uploads are in flight
+		for _, op := range w.liveParked() {
+			if op.Kind == "up" && strings.HasPrefix(op.Key, "tile/") {
+				add(p.StallW*4, core.Cmd{A: "adv", N: 15001})
+				break
+			}
+		}
 	}
 	if p.ClockW > 0 {
 		switch r.Intn(4) {
